@@ -428,6 +428,50 @@ func runC06Script(w *mon.W, no int) {
 			if !checkReplies(nil, []*p9p.Fcall{dupReply}) {
 				return
 			}
+		case op == 7 && len(parked) > 0: // flush a running request, reuse its tag at once, let the flushed handler finish late
+			idx := w.Rng.Intn(len(parked))
+			a := parked[idx]
+			parked = append(parked[:idx], parked[idx+1:]...)
+			ftag := freeTag()
+			trace = append(trace, fmt.Sprintf("flush uid=%d tag=%d (flush tag %d)", a.uid, a.tag, ftag))
+			h.send(&p9p.Fcall{Type: p9p.Tflush, Tag: ftag, Message: p9p.MessageTflush{Oldtag: a.tag}})
+			if !settle() {
+				w.Inconclusive("watchdog")
+				return
+			}
+			if !checkReplies(nil, []*p9p.Fcall{{Type: p9p.Rflush, Tag: ftag, Message: p9p.MessageRflush{}}}) {
+				return
+			}
+			delete(outstanding, a.tag)
+			// B reuses the tag while A's handler (which ignores cancellation) is still running
+			uid++
+			m := requestWithUID(g, p9p.Tstat, uid)
+			fc := &p9p.Fcall{Type: m.Type(), Tag: a.tag, Message: m}
+			b := &c06req{uid: uid, tag: a.tag, sent: fc, order: arrivals, expect: m}
+			arrivals++
+			outstanding[a.tag] = b
+			trace = append(trace, fmt.Sprintf("send %s tag=%d uid=%d (reusing the flushed tag)", fc.Type, a.tag, uid))
+			h.send(fc)
+			if !settle() {
+				w.Inconclusive("watchdog")
+				return
+			}
+			if !absorb([]*c06req{b}) || !checkReplies(nil, nil) {
+				return
+			}
+			// the flushed request completes late: nothing may be sent for it, B stays pending
+			ar := resultWithUID(w.Rng, g, a.uid)
+			trace = append(trace, fmt.Sprintf("late completion of flushed uid=%d", a.uid))
+			a.inv.gate <- ar
+			if !settle() {
+				w.Inconclusive("watchdog")
+				return
+			}
+			if !checkReplies(nil, nil) {
+				return
+			}
+			w.Count("flushed_then_tag_reused", 1)
+			nontrivial = true
 		default: // complete 1..k parked handlers
 			if len(parked) == 0 {
 				continue
